@@ -1064,6 +1064,27 @@ class SymNP:
             out[idx] = fn(a[idx])
         return out
 
+    def round(self, a, decimals=0, out=None):
+        """rounding by its contract: the result differs from the argument by at most half a unit
+        of the last kept decimal - a fresh bounded real per element (NOT infinitesimal: rounding a
+        formal step does not vanish with it)"""
+        a_ = self.asarray(a)
+        if not isinstance(a_, Sym) and getattr(a_, 'dtype', None) != object:
+            return np.round(a_, decimals)
+        half = Fr(1, 2) / (Fr(10) ** decimals)
+
+        def one(v):
+            v = J(v)
+            if v.isconst() and is_val(z3.simplify(v.c0)):
+                f = val(z3.simplify(v.c0)) / (2 * half)
+                return J(Fr(math.floor(f + Fr(1, 2))) * 2 * half)
+            d = C.fresh('rnd')
+            C.dom += [d >= -rat(half), d <= rat(half)]
+            C.defs[str(d)] = ('value', lambda ev: 0.0)
+            return v + Sym({C.zero: d})
+        return self._u1(one, a_)
+    around = round
+
     def arctan(self, a):
         return self._u1(lambda v: atan2(v, 1), a)
 
